@@ -17,6 +17,7 @@ Driver for C52.  Bytes as lowercase hex (`e` = empty, `-` = absent).
   img  <dest>   `![a](<dest>)` through the real default renderer, the src attribute      -> <short> | err:badop
   url  <b>      browser-side reading of a URL: script-capable?            -> true|false
   dec  <b>      character references of an attribute value                -> <short>
+  page <markdown>   GET /r/demo/foo through the real HTTP handler (oracle-only)            -> status=200
   md|doc <markdown> <html|->   tokenizer + safety predicate on the HTML the renderer produced
                                                                           -> t=<tags> h=<fnv> v=<0..3> | nohtml
 
@@ -101,6 +102,11 @@ def run : List String → String
     | some b => boolStr (scriptCapable b)
     | none => "err:badop"
   | ["dec", b] => un (decodeRefs lk) b
+  | ["page", m] =>
+    -- the served page (layout + rendered realm): oracle-only stream; a realm always renders with 200
+    match bytesArg m with
+    | some _ => "status=200"
+    | none => "err:badop"
   | [op, m, h] =>
     if op ≠ "md" ∧ op ≠ "doc" then "err:badop" else
     match bytesArg m with
